@@ -59,8 +59,14 @@ NON_NODE_TYPES = {"identifier", "int", "string", "constant"}
 # the normal form of compile() inlines are analysed in context by C11-D3-order / C11-D3-eval.
 EVAL_SITES = {
     (SAFE, "ExpressionEvaluator.compile"): {"compile"},
-    ("semantiva/trace/_utils.py", "_semantiva_version"): {"exec"},  # reads version.txt of the package
 }
+# Any other eval/exec/compile site is decided by what flows into it (``fixed_source``): text that is a function of
+# ``__file__`` and literals alone - the package's own version.txt read by the trace layer - cannot be a sweep
+# expression, whatever the function that reads it is called and whichever module it lives in.
+PATH_FUNCS = {"Path", "PurePath", "pathlib.Path", "pathlib.PurePath", "str", "open", "io.open", "os.fspath", "os.path.join", "os.path.dirname",
+              "os.path.abspath", "os.path.realpath", "os.path.normpath"}
+PATH_ATTRS = {"parent", "parents", "name", "stem"}
+PATH_METHODS = {"resolve", "absolute", "joinpath", "with_name", "with_suffix", "read_text", "read_bytes", "read", "decode", "open", "strip", "as_posix"}
 COMPILE_QN = "ExpressionEvaluator.compile"
 # calls that may receive the validated tree between validation and compile() without altering its structure
 TREE_READERS = {
@@ -589,8 +595,70 @@ def _enclosing(node: ast.AST, stop: ast.AST) -> ast.AST:
     return stop
 
 
+def find_visitor(repo: Repo) -> str:
+    """The validating visitor, by role: the ``ast.NodeVisitor`` subclass of the safe-eval module that the
+    evaluator class (or a private helper of the module) instantiates.  Its name is not an anchor."""
+    mod = repo.module(SAFE)
+    classes = [st for st in mod.tree.body if isinstance(st, ast.ClassDef)]
+    names = {c.name for c in classes}
+
+    def is_visitor(c: ast.ClassDef, depth: int = 0) -> bool:
+        for b in c.bases:
+            d = dotted_name(b)
+            if d in ("ast.NodeVisitor", "NodeVisitor"):
+                return True
+            if d in names and d != c.name and depth < 4 and is_visitor(next(k for k in classes if k.name == d), depth + 1):
+                return True
+        return False
+
+    cands = [c for c in classes if is_visitor(c)]
+    if len(cands) > 1:
+        users = [st for st in mod.tree.body if (isinstance(st, ast.ClassDef) and st.name == EVALUATOR) or isinstance(st, FuncNode)]
+        built = {call_attr(k) for u in users for k in ast.walk(u) if isinstance(k, ast.Call)}
+        used = [c for c in cands if c.name in built]
+        # a base class of the instantiated visitor is not the visitor
+        used = [c for c in used if not any(dotted_name(b) == c.name for o in used for b in o.bases)] or used
+        if used:
+            cands = used
+    if len(cands) == 1:
+        return cands[0].name
+    return VISITOR  # ambiguous or none: the documented name (repo.cls raises ANALYSIS-ERROR when it is gone)
+
+
+def find_sweep_compiler(repo: Repo) -> str:
+    """The sweep factory's expression compiler, by role: the module-level function of the factory module that
+    ``ParametricSweepFactory.create`` calls and that (itself or through same-module helpers) calls ``.compile`` on
+    one of its parameters."""
+    default = "_compile_parametric_expressions"
+    mod = repo.module(SWEEP)
+    funcs = {st.name: st for st in mod.tree.body if isinstance(st, FuncNode)}
+
+    def compiles(f: ast.AST, depth: int = 0) -> bool:
+        params = _scope_params(f)
+        for c in calls_in(f):
+            callee = c.func
+            if isinstance(callee, ast.Name):
+                callee = local_value(f, callee.id) or callee
+            if isinstance(callee, ast.Attribute) and callee.attr == "compile" and isinstance(callee.value, ast.Name) and callee.value.id in params:
+                return True
+            if isinstance(c.func, ast.Name) and c.func.id in funcs and funcs[c.func.id] is not f and depth < 2 and compiles(funcs[c.func.id], depth + 1):
+                return True
+        return False
+
+    cands = {n for n, f in funcs.items() if compiles(f)}
+    if not cands:
+        return default
+    try:
+        create = nfunc(repo, SWEEP, "ParametricSweepFactory.create", keep=tuple(sorted(cands)), copyprop="all")
+    except AnalysisError:
+        return default
+    called = {c.func.id for c in calls_in(create) if isinstance(c.func, ast.Name) and c.func.id in cands}
+    return next(iter(called)) if len(called) == 1 else default
+
+
 def run(repo: Repo, R: Report) -> None:
     mod = repo.module(SAFE)
+    VISITOR = find_visitor(repo)
     visitor = repo.cls(SAFE, VISITOR)
     evaluator = repo.cls(SAFE, EVALUATOR)
     fn_rel = SAFE
@@ -1606,11 +1674,20 @@ def run(repo: Repo, R: Report) -> None:
                     allowed_here |= {"eval"}  # a closure / lambda of compile(): arguments decided by C11-D3-eval
                 if m.rel == SAFE and isinstance(fn, FuncNode) and fn.name in inlined and c.func.id == "compile" and only_used_by_compile(fn.name):
                     allowed_here |= {"compile"}  # analysed in context (inlined into the normal form of compile())
-                R.check(c.func.id in allowed_here, r_who, m.rel, qn, norm(c), f"{c.func.id}() outside the frozen who-may-eval table", c.lineno)
+                if c.func.id not in allowed_here:
+                    # decided by what flows in, not by where the call lives or what its function is called: text that
+                    # is a function of __file__ and literals alone (the package's version.txt) is no sweep expression
+                    src = c.args[0] if c.args and not isinstance(c.args[0], ast.Starred) else kwarg(c, "source")
+                    scopes = [a for a in _anc(c) if isinstance(a, ANYFUNC)]
+                    if src is not None and not any(isinstance(a, ast.Starred) for a in c.args) and not any(k.arg is None for k in c.keywords) \
+                            and fixed_source(src, scopes, m.tree):
+                        R.ok(r_who, m.rel, qn, norm(c))
+                        continue
+                R.check(c.func.id in allowed_here, r_who, m.rel, qn, norm(c), f"{c.func.id}() outside the frozen who-may-eval table on text that is not a fixed file of the package", c.lineno)
 
     # ---------------- sweep factory passes exactly the variables --------------
     r_sw = R.rule("C11-D3-sweep-names", "the sweep factory compiles expressions with exactly the declared variable names, and nothing else evaluates them", 2)
-    CPE = "_compile_parametric_expressions"
+    CPE = find_sweep_compiler(repo)
     create = nfunc(repo, SWEEP, "ParametricSweepFactory.create", keep=(CPE,), copyprop="all")
     cpe = nfunc(repo, SWEEP, CPE, copyprop="all")
     cpe_params = [a.arg for a in cpe.args.posonlyargs + cpe.args.args]
@@ -1820,6 +1897,154 @@ def run(repo: Repo, R: Report) -> None:
 
 def _anc(node):
     return ancestors(node)
+
+
+def _scope_params(fn: ast.AST) -> Set[str]:
+    a = fn.args
+    return {x.arg for x in a.posonlyargs + a.args + a.kwonlyargs} | {x.arg for x in (a.vararg, a.kwarg) if x is not None}
+
+
+def _scope_nodes(scope: ast.AST):
+    """nodes executed in *scope* itself: a function body without nested functions, or the module's top level
+    (``def`` / ``class`` statements of the module are yielded, their bodies are not)."""
+    if isinstance(scope, ANYFUNC):
+        yield from walk_no_nested(scope)
+        return
+    for st in scope.body:
+        if isinstance(st, FuncNode + (ast.ClassDef,)):
+            yield st
+        else:
+            yield from walk_no_nested(st)
+
+
+def _import_origins(scope: ast.AST) -> Dict[str, str]:
+    """local name -> dotted origin for the import statements executed in *scope* itself (not in nested functions)."""
+    out: Dict[str, str] = {}
+    for n in _scope_nodes(scope):
+        if isinstance(n, ast.Import):
+            for al in n.names:
+                if al.asname:
+                    out[al.asname] = al.name
+                else:
+                    out[al.name.split(".")[0]] = al.name.split(".")[0]
+        elif isinstance(n, ast.ImportFrom) and n.module and not n.level:
+            for al in n.names:
+                out[al.asname or al.name] = f"{n.module}.{al.name}"
+    return out
+
+
+def _bindings(scope: ast.AST, name: str) -> Optional[List[ast.AST]]:
+    """Values bound to *name* in *scope*: [] = not bound there, None = bound in a way that is not a plain value
+    (def / class / import / global / loop or unpacking target / del)."""
+    vals: List[ast.AST] = []
+    for n in _scope_nodes(scope):
+        if isinstance(n, FuncNode + (ast.ClassDef,)) and n is not scope and n.name == name:
+            return None
+        if isinstance(n, (ast.Global, ast.Nonlocal)) and name in n.names:
+            return None
+        if isinstance(n, (ast.Import, ast.ImportFrom)) and any((al.asname or al.name.split(".")[0]) == name for al in n.names):
+            return None
+        if not (isinstance(n, ast.Name) and n.id == name and isinstance(n.ctx, (ast.Store, ast.Del))):
+            continue
+        p = parent(n)
+        if isinstance(p, ast.Assign) and all(isinstance(t, ast.Name) for t in p.targets):
+            vals.append(p.value)
+        elif isinstance(p, ast.AnnAssign) and p.target is n:
+            if p.value is not None:
+                vals.append(p.value)  # a bare annotation binds nothing
+        elif isinstance(p, ast.withitem) and p.optional_vars is n:
+            vals.append(p.context_expr)
+        elif isinstance(p, ast.NamedExpr) and p.target is n:
+            vals.append(p.value)
+        else:
+            return None
+    return vals
+
+
+def fixed_source(e: ast.AST, scopes: List[ast.AST], tree: ast.Module, depth: int = 0) -> bool:
+    """The value of *e* is a function of ``__file__`` and literals alone (path arithmetic and reading the file
+    included): no parameter, attribute, global state or environment flows into it.  *scopes* are the enclosing
+    functions, innermost first; names are resolved flow-insensitively through **every** binding they have."""
+    if depth > 12:
+        return False
+
+    def rec(x: ast.AST) -> bool:
+        return fixed_source(x, scopes, tree, depth + 1)
+
+    def callee(f: ast.AST) -> Optional[str]:
+        """canonical dotted name of a module-level callable reached through imports / builtins."""
+        d = dotted_name(f)
+        if not d:
+            return None
+        root, _, rest = d.partition(".")
+        for sc in list(scopes) + [tree]:
+            if isinstance(sc, ANYFUNC) and root in _scope_params(sc):
+                return None
+            org = _import_origins(sc).get(root)
+            stored = any(isinstance(n, ast.Name) and n.id == root and isinstance(n.ctx, (ast.Store, ast.Del)) for n in _scope_nodes(sc))
+            if org is not None:
+                return None if stored else org + ("." + rest if rest else "")
+            if stored or _bindings(sc, root) is None:
+                return None
+        return d if not rest else None  # an unshadowed builtin (str, open)
+
+    if isinstance(e, ast.Constant):
+        return True
+    if isinstance(e, ast.Name):
+        if not isinstance(e.ctx, ast.Load):
+            return False
+        for sc in list(scopes) + [tree]:
+            if isinstance(sc, ANYFUNC) and e.id in _scope_params(sc):
+                return False
+            b = _bindings(sc, e.id)
+            if b is None:
+                return False
+            if b:
+                if isinstance(sc, ANYFUNC) and mutation_sites(sc, {e.id}):
+                    return False
+                if sc is tree and any(isinstance(n, ast.Global) and e.id in n.names for n in ast.walk(tree)):
+                    return False
+                if sc is tree and mutation_sites(tree, {e.id}, include_nested=True):
+                    return False
+                inner = scopes[scopes.index(sc):] if sc in scopes else []
+                return all(fixed_source(v, inner, tree, depth + 1) for v in b)
+        return e.id == "__file__"
+    if isinstance(e, ast.Attribute):
+        return e.attr in PATH_ATTRS and rec(e.value)
+    if isinstance(e, ast.Subscript):
+        return rec(e.value) and rec(e.slice)
+    if isinstance(e, ast.Slice):
+        return all(rec(x) for x in (e.lower, e.upper, e.step) if x is not None)
+    if isinstance(e, ast.UnaryOp):
+        return rec(e.operand)
+    if isinstance(e, ast.BinOp):
+        return isinstance(e.op, (ast.Div, ast.Add)) and rec(e.left) and rec(e.right)
+    if isinstance(e, ast.JoinedStr):
+        return all(rec(v) for v in e.values)
+    if isinstance(e, ast.FormattedValue):
+        return rec(e.value) and (e.format_spec is None or rec(e.format_spec))
+    if isinstance(e, (ast.Tuple, ast.List)):
+        return all(rec(x) for x in e.elts)
+    if isinstance(e, ast.Call):
+        if any(isinstance(a, ast.Starred) and not rec(a.value) for a in e.args):
+            return False
+        if not all(rec(a.value if isinstance(a, ast.Starred) else a) for a in e.args) or not all(rec(k.value) for k in e.keywords):
+            return False
+        if callee(e.func) in PATH_FUNCS:
+            return True
+        if isinstance(e.func, ast.Name) and not e.args and not e.keywords:
+            # a parameterless function of the same module (extract-helper of the path / the read): every value it returns
+            nm = e.func.id
+            shadowed = any((isinstance(sc, ANYFUNC) and nm in _scope_params(sc)) or _bindings(sc, nm) != [] for sc in scopes)
+            defs = [st for st in _scope_nodes(tree) if isinstance(st, FuncNode + (ast.ClassDef,)) and st.name == nm]
+            stored = any(isinstance(n, ast.Name) and n.id == nm and isinstance(n.ctx, (ast.Store, ast.Del)) for n in ast.walk(tree))
+            if not shadowed and not stored and len(defs) == 1 and isinstance(defs[0], ast.FunctionDef) and not defs[0].decorator_list and not _scope_params(defs[0]):
+                rets = [n for n in walk_no_nested(defs[0]) if isinstance(n, ast.Return)]
+                gen = any(isinstance(n, (ast.Yield, ast.YieldFrom)) for n in walk_no_nested(defs[0]))
+                return bool(rets) and not gen and all(r.value is not None and fixed_source(r.value, [defs[0]], tree, depth + 1) for r in rets)
+            return False
+        return isinstance(e.func, ast.Attribute) and e.func.attr in PATH_METHODS and rec(e.func.value)
+    return False
 
 
 def _keyed_by(func, value, names_param: str) -> bool:
